@@ -22,12 +22,9 @@ from common import coq_list, coq_string
 INFRA = ("name", "device", "dtype")
 # mirror of Ops/ClassTableSpec.v known_offenders (the Coq side is authoritative for the verdict; this copy is
 # used for classification of failing inputs and is compared with the Coq list by run_obligation)
-KNOWN_OFFENDERS = {
-    "Quadrupole": {"missing": ["num_steps", "tracking_method"], "extra": []},
-    "Screen": {"missing": ["is_blocking"], "extra": []},
-    "Undulator": {"missing": ["is_active"], "extra": []},
-    "SpaceChargeKick": {"missing": ["num_grid_points_x", "num_grid_points_y", "num_grid_points_tau"], "extra": ["grid_shape"]},
-}
+# Empty since fix b273117 in /repo (the four classes of finding F12 were repaired); the list of offenders before that fix is
+# kept in Ops/ClassTableSpec.v as offenders_before_fix.
+KNOWN_OFFENDERS = {}
 
 
 def element_classes(cheetah):
